@@ -1,5 +1,6 @@
 // harness: same case protocol as ocaml/driver.ml, run against the real crate.
 mod conv;
+mod lane_peg;
 mod lanes;
 mod plug;
 mod sexp;
